@@ -1,5 +1,5 @@
 import HdVerif.Proofs.PMap
-import HdVerif.Props.C05
+import HdVerif.Proofs.PMapReadBase
 import HdVerif.Model.PMapRead
 import HdVerif.Proofs.CodecGlue
 /-! C19: every read path of one image object returns the plane that was stored, after every history (native integer maps);
@@ -12,7 +12,7 @@ theorem stdFrameIndex_key (f n : Nat) (ai : Bool) (hf : f < n) : stdFrameIndex (
   rw [stdFrameIndex_ok_iff]; unfold frameKey; cases ai <;> simp <;> omega
 
 theorem stdFrameIndex_key_out (f n : Nat) (ai : Bool) (hf : n ≤ f) : stdFrameIndex (frameKey f ai) ai (n : Int) = .error .index := by
-  apply HdVerif.C05.frame_number_rejected
+  apply HdVerif.PMapBase.frame_number_rejected
   unfold frameKey; cases ai <;> simp <;> omega
 
 /-- the first statement of both methods on the frame key: the standardised index, or IndexError beyond the image -/
@@ -94,7 +94,7 @@ theorem storedUncached_build (sk : Skel) (hsk : sk = singleSkel ∨ sk = batchSk
     simp only []
     rw [frameBytes_of_index sk hsk, hkey]
     -- the raw bytes of index f, from C05's theorem on frame number f + 1
-    have hm := HdVerif.C05.memory_frame_bytes_any (o.frames.map List.flatten) x.r x.c 1 (8 * x.itemsize) "MONOCHROME2" hb hlen f hfl
+    have hm := HdVerif.PMapBase.memory_frame_bytes_any (o.frames.map List.flatten) x.r x.c 1 (8 * x.itemsize) "MONOCHROME2" hb hlen f hfl
     unfold memFrameBytes at hm
     rw [frameBytes_of_index singleSkel (Or.inl rfl), hlenF] at hm
     have e1 : ((f : Int) + 1) = frameKey f false := by unfold frameKey; simp
@@ -106,7 +106,7 @@ theorem storedUncached_build (sk : Skel) (hsk : sk = singleSkel ∨ sk = batchSk
   | lazy =>
     simp only []
     rw [frameBytes_of_index sk hsk, hkey]
-    have hm := HdVerif.C05.lazy_frame_bytes_any (o.frames.map List.flatten) x.r x.c 1 (8 * x.itemsize) "MONOCHROME2" hb
+    have hm := HdVerif.PMapBase.lazy_frame_bytes_any (o.frames.map List.flatten) x.r x.c 1 (8 * x.itemsize) "MONOCHROME2" hb
       (by rw [hfb]; exact hpos) hlen f hfl
     unfold lazyFrameBytes at hm
     rw [frameBytes_of_index singleSkel (Or.inl rfl), hlenF] at hm
@@ -138,7 +138,7 @@ theorem storedCached_build (sk : Skel) (hsk : sk = singleSkel ∨ sk = batchSkel
     simp only []
     have hw1 : (w :: rest).length = 1 → (w :: rest) = [w] := by
       intro h1; simp at h1; rw [h1]
-    have := HdVerif.C05.cached_frame sk hsk (w :: rest) w hw1 f (by rw [← hfs]; exact hfl) ai
+    have := HdVerif.PMapBase.cached_frame sk hsk (w :: rest) w hw1 f (by rw [← hfs]; exact hfl) ai
     unfold frameKey
     rw [this]
     have hg := loopNest_get_divmod x.n x.m (plane x) f hf
@@ -159,7 +159,7 @@ theorem storedCached_out (sk : Skel) (hsk : sk = singleSkel ∨ sk = batchSkel) 
     omega
   | cons w rest =>
     simp only []
-    apply HdVerif.C05.cached_frame_rejected sk hsk
+    apply HdVerif.PMapBase.cached_frame_rejected sk hsk
     rw [← hfs, hlen]; unfold frameKey; cases ai <;> simp <;> omega
 
 /-- **Bridge**: the hand-written `readStoredFrame` of `Model/PMap.lean` is the un-cached branch of `get_stored_frame` as C05's
